@@ -707,5 +707,7 @@ def summarize(all_cases, counters, extras):
     return {
         "value_kinds_seen": kinds,
         "compression_levels_seen": sorted(k.split("=")[1] for k in counters if k.startswith("config:compression=")),
+        "cases_by_process_state": {k.split(":", 1)[1]: v for k, v in sorted(counters.items()) if k.startswith("process_state:")},
+        "history_cases": {k: counters.get(k, 0) for k in ("history_cases", "restructure_cases", "after_error_cases")},
         "deq_modes": {"roundtrip_differs": "roundtrip", "cross_store_differs": "strict (rng/logger kind only)", "fixed_point_differs": "strict (rng/logger kind only, all-numeric sequences by value)"},
     }
